@@ -22,7 +22,8 @@ KANI_DOMAIN = {
     'socktype_as_str': 'the twelve socket types',
     'greeting_ser': 'every version (u8,u8) x 3 mechanisms x as_server in {false,true}',
     'greeting_default': 'the single default greeting',
-    'cmd_name_only': 'command bodies that are a name only (1 + up to 6 octets)',
+    'cmdname_as_str': 'the single command name',
+    'encode_loop3': 'messages of 1..=3 frames drawn from the static bodies "", "a", "b"',
     'encode_loop': 'messages of 1..=3 frames with bodies of 0..=2 symbolic octets',
     'ready_ser': 'READY for every socket type, identity absent or 1..=3 symbolic octets',
 }
@@ -47,11 +48,12 @@ PROPS = {
             ('codec', r'ZmqMechanism as TryFrom', A, None),
             ('codec', r'ZmqCommand as TryFrom', A, None),
             ('codec', r'^ZmqMessage::push_back$|ZmqMessage as From<Bytes>', A, None),
-            ('codec', r'^tmpl::lemma_(roundtrip|be64|flags)', A, None),
+            ('codec', r'^tmpl::lemma_(roundtrip|be64|flags|ready_)', A, None),
+            ('codec', r'^ZmqCommand::serialize$|^ZmqCommandName::as_str$', A, None),
         ],
         'kani': {
-            'quick': [('greeting_ser', 'complete'), ('greeting_default', 'complete'), ('mech_parse', 'complete')],
-            'thorough': [('greeting_ser', 'complete'), ('greeting_default', 'complete'), ('mech_parse', 'complete')],
+            'quick': [('greeting_ser', 'complete'), ('greeting_default', 'complete'), ('mech_parse', 'complete'), ('cmdname_as_str', 'complete')],
+            'thorough': [('greeting_ser', 'complete'), ('greeting_default', 'complete'), ('mech_parse', 'complete'), ('cmdname_as_str', 'complete')],
         },
         'assumptions': [],
         'not_covered': [],
